@@ -1,7 +1,8 @@
 (* Props/C11.v -- property C11: an OTAA join establishes exactly the session the JoinAccept defines. *)
 From Coq Require Import NArith ZArith List Bool.
 From LoraV Require Import Base.Bytes Model.Frame Spec.L2Frame Gen.RegionTables Model.Region Model.Mac
-  Proofs.FrameProofs Proofs.JoinProofs Proofs.OtaaProofs.
+  Proofs.FrameProofs Proofs.JoinProofs Proofs.OtaaProofs
+  Model.AsyncDev Model.NbDev Proofs.TxHistory Proofs.AsyncJoin Proofs.NbJoin.
 Import ListNotations.
 Local Open Scope nat_scope.
 
@@ -65,6 +66,36 @@ Section C11.
       m_state m' = Joined (session_new (spec_session_key enc 1 jn nid nonce key) (spec_session_key enc 2 jn nid nonce key) da) /\
       m_cfg m' = join_cfg (rg_id (m_region m)) (m_cfg m) dls (rxd mod 16) /\ m_region m' = rg'.
   Proof. exact (join_session_of_spec_accept enc dec mac_fn dec_len mac_len enc_dec). Qed.
+  (* ---- through the front-ends: "without such a frame the attempt ends in 'no join accept' and the device remains unjoined" *)
+
+  (* async_device: the join request is built (o); then WHATEVER the radio does -- timeouts, errors, any frames in RX1 / RX2 / Class C
+     reception, a fault at any call -- as long as none of the delivered frames is an authentic JoinAccept under the root key, join()
+     leaves the device exactly in the joining state of the request: never joined, never JoinSuccess *)
+  Theorem C11_async_join_needs_authentic_accept : forall d e c d0 rest o d' e' res,
+    join_otaa mac_fn (ad_mac d) c (d0 :: rest) = Val o ->
+    (forall f, In (SvX f) (e_script e) -> spec_ja_accepts enc mac_fn (firstn 256 f) (cr_appkey c) = false) ->
+    adev_join enc mac_fn d e c (d0 :: rest) = (d', e', res) ->
+    d' = with_mac d (to_mac o) /\ res <> AOk RJoinSuccess /\ (forall s, m_state (ad_mac d') <> Joined s).
+  Proof.
+    intros d e c d0 rest o d' e' res JO NA H.
+    destruct (join_request_spec enc dec mac_fn dec_len mac_len enc_dec enc_len _ _ _ _ _ JO) as [_ [_ [J _]]].
+    apply (async_join_needs_authentic_accept enc mac_fn d e c (d0 :: rest) o d' e' res JO (ex_intro _ _ J)); [|exact H].
+    intros f Hin. specialize (NA f Hin).
+    destruct (ja_accept_iff enc dec mac_fn dec_len mac_len enc_dec enc_len (firstn 256 f) (cr_appkey c)) as [[_ T]|[E _]]; [congruence|exact E].
+  Qed.
+
+  (* nb_device: once joining (DevNonce n, credentials c), no sequence of radio events, timeouts and send requests in which every received
+     packet fails to be an authentic JoinAccept changes the MAC at all *)
+  Theorem C11_nb_join_needs_authentic_accept : forall n c evs st m e,
+    m_state m = Otaa n c ->
+    Forall (fun x => (match fst x with NJoin _ _ => False | _ => True end) /\
+                     (match snd x with RaRxDone p => spec_ja_accepts enc mac_fn p (cr_appkey c) = false | _ => True end)) evs ->
+    let '(st', m', e') := nb_run enc mac_fn st m e evs in m' = m.
+  Proof.
+    intros n c evs st m e J Q. apply (nb_join_needs_authentic_accept enc mac_fn n c evs st m e J).
+    eapply Forall_impl; [|exact Q]. intros [ev ans] [A B]. split; [exact A|]. cbn [snd] in *. destruct ans; try exact I.
+    destruct (ja_accept_iff enc dec mac_fn dec_len mac_len enc_dec enc_len packet (cr_appkey c)) as [[_ T]|[E _]]; [congruence|exact E].
+  Qed.
 End C11.
 
 (* the channel list: type 0 on a dynamic plan sets channels J..J+4 (0 = remove, in-band = define with DR0..5, out-of-band
